@@ -158,6 +158,8 @@ func updateHIDIConfiguration() error {
 			}
 			// factory file does not exist
 			log.Info(fmt.Sprintf("Creating new factory configuration: \"%s\"", path), logger.Debug)
+			// (a symbolic link whose target is gone also "does not exist": it is replaced, not followed)
+			_ = os.Remove(path)
 			fd, err := os.OpenFile(path, os.O_CREATE|os.O_WRONLY, 0o666)
 			if err != nil {
 				return fmt.Errorf("cannot open \"%s\" file for writing: %w", path, err)
